@@ -6,9 +6,22 @@ Sections  `begin kind=router`:
   route m=<method> p=<pattern> h=<id|nil>   => clean=<path.Clean(pattern)> ok|dup|badmethod|badpath|empty|err:<..>
   req   m=<method> p=<path> n=<repeats>     => clean=<path.Clean(path)> <outcome> [| <outcome>]…   (distinct outcomes, sorted)
       outcome:  h=<id> vars=<k=v,…sorted>  |  405 allow=<methods sorted,>  |  404
+                |  nf=<id> code=<c>  (custom not-found handler ran)  |  na=<id> code=<c> [allow=…]  (custom not-allowed handler)
+  setnf h=<id|nil> | setna h=<id|nil>       => ok        (patRouter.SetNotFoundHandler / SetNotAllowedHandler)
+Sections  `begin kind=server` (rest.NewServer + AddRoutes + engine.bindRoutes, no listener):
+  opt nf=<id|nil> | opt na=<id|nil>         => ok        (rest.WithNotFoundHandler / WithNotAllowedHandler, before the server is built)
+  group [pfx=<group>] r=<m>,<path>,<id>…    => paths=<…>  (AddRoutes [WithPrefix]; the paths Routes() reports)
+  bind                                      => ok|badmethod|badpath|dup   (engine.bindRoutes: first error)
+  req … as above
 Sections  `begin kind=tree` (core/search.Tree directly, raw strings):
   tadd p=<route> h=<id|nil>   => ok|dup|dupslash|notfromroot|empty
   tsearch p=<route> n=<k>     => h=<id> vars=… | none          (distinct outcomes, sorted, ` | `-separated)
+
+Every line is (1) compared with the model (mismatch) and (2) judged by a monitor that knows only the plain
+route table (violation): `Spec.monitorObs` for requests (sound: PropsServer.monitor_sound,
+monitor_determinism_sound), `Spec.register` / `Spec.bindTable` for registrations (monitor_registration_sound,
+bindAll_represents), `Spec.rawAddVerdict` / `Spec.matchesRawB` for the raw tree (raw_add_monitor_sound,
+tree_search_raw).
 -/
 import GoZero.Base.Trace
 import GoZero.C09.Spec
@@ -48,15 +61,6 @@ def nextAll : List String → Node → List (H × Params)
 
 def dedup (l : List String) : List String := (sortStr l).eraseDups
 
-/-- all outcomes of `serve` over all iteration orders. -/
-def serveAll (r : Router) (method path : String) : List String :=
-  let own : List (H × Params) :=
-    match r.trees.lookup method with
-    | some root => if rooted path then nextAll (cleanToks path) root else []
-    | none => []
-  if own.isEmpty then [fmtOutcome (serve r method path)]
-  else dedup (own.map fun (h, ps) => fmtHit h ps)
-
 def arg (pfx : String) (toks : List String) : Option String :=
   toks.findSome? fun t => if t.startsWith pfx then some (String.ofList (t.toList.drop pfx.length)) else none
 
@@ -89,128 +93,312 @@ def fmtAdd : Except AddErr Node → String
   | .error .dupSlash => "dupslash"
   | .error .notFromRoot => "notfromroot"
 
+/-! ### observations: model → canonical observation, harness text → canonical observation -/
+
+/-- the canonical observation a model response amounts to (what the harness would see). -/
+def obsOf : Response → Spec.Obs
+  | .route h ps => .hit h (paramMap ps)
+  | .customNotAllowed h => .customNA h
+  | .defaultNotAllowed a => .notAllowed a
+  | .customNotFound nf => match nf.user with | some h => .customNF h | none => .notFound
+  | .defaultNotFound => .notFound
+
+/-- the custom handlers a patRouter is configured with (the user's handlers). -/
+def customOf (pr : PatRouter) : Spec.Custom :=
+  { nf := pr.notFound.bind NFHandler.user, na := pr.notAllowed }
+
+/-- harness convention: a custom handler whose id is a 4xx/5xx number writes that status, others write nothing. -/
+def ownCode (h : H) : Option Nat := if 400 ≤ h ∧ h ≤ 599 then some h else none
+
+def fmtResponse : Response → String
+  | .route h ps => fmtHit h ps
+  | .customNotAllowed h => s!"na={h} code={(ownCode h).getD 200}"
+  | .defaultNotAllowed a => "405 allow=" ++ ",".intercalate (sortStr a)
+  | .customNotFound (.plain h) => s!"nf={h} code={(ownCode h).getD 200}"
+  -- engine.notFoundHandler: next runs, then `cw.WriteHeader(404)` (ignored when next wrote a status)
+  | .customNotFound (.engine (some h)) => s!"nf={h} code={(ownCode h).getD 404}"
+  | .customNotFound (.engine none) => "404"
+  | .defaultNotFound => "404"
+
+def splitEq (s : String) : String × String :=
+  let cs := s.toList
+  (String.ofList (cs.takeWhile (· ≠ '=')), String.ofList ((cs.dropWhile (· ≠ '=')).drop 1))
+
+/-- parse one outcome as printed by the harnesses. Anything unexpected is `.other` (never accepted). -/
+def parseObs (o : String) : Spec.Obs :=
+  match (o.splitOn " ").filter (· ≠ "") with
+  | ["404"] => .notFound
+  | ["405", a] =>
+    if a.startsWith "allow=" then .notAllowed (((splitEq a).2.splitOn ",").filter (· ≠ "")) else .other o
+  | [h, v] =>
+    let (hk, hv) := splitEq h
+    let (vk, vv) := splitEq v
+    if hk = "h" ∧ vk = "vars" then
+      match hv.toNat? with
+      | some n => .hit n (if vv = "" then [] else (vv.splitOn ",").map splitEq)
+      | none => .other o
+    else if vk = "code" then
+      match hk, hv.toNat? with
+      | "nf", some n => .customNF n
+      | "na", some n => .customNA n      -- no Allow header: a third token `allow=…` makes it `.other`
+      | _, _ => .other o
+    else .other o
+  | _ => .other o
+
+def fmtRoute (toks : List String) (r : Spec.Route) : String := s!"h={r.h} vars={fmtVars (Spec.binds r.pats toks)}"
+
+def fmtVerdict (c : Spec.Custom) (m : String) (toks : List String) (impl : String) : Spec.Verdict → Option String
+  | .ok => none
+  | .notUnique => some "hypothesis holds but the preferred match is not unique"
+  | .noRouteMatches => some s!"dispatched [{impl}] although no route of method {m} matches"
+  | .wrongRoute adm => some s!"dispatched [{impl}] but the preferred match is [{",".intercalate (adm.map (fmtRoute toks))}]"
+  | .notDispatched r => some s!"not dispatched [{impl}] although route h={r.h} matches"
+  | .expected (.notAllowed a) =>
+    match c.na with
+    | none => some s!"expected [405 allow={",".intercalate (sortStr a)}] got [{impl}]"
+    | some h => some s!"expected the custom not-allowed handler [na={h}] (405 situation, other methods {",".intercalate (sortStr a)}) got [{impl}]"
+  | .expected _ =>
+    match c.nf with
+    | none => some s!"expected [404] got [{impl}]"
+    | some h => some s!"expected the custom not-found handler [nf={h}] (no route of any method matches) got [{impl}]"
+
 /-- the property's verdict on one observed outcome of a request. `none` = fine. -/
-def monitorReq (tbl : Spec.Table) (hyp : Bool) (m path : String) (impl : String) : Option String :=
+def monitorReq (tbl : Spec.Table) (hyp : Bool) (c : Spec.Custom) (m path : String) (impl : String) : Option String :=
   let toks := if rooted path then some (cleanToks path) else none
-  let cs := match toks with | some t => Spec.candidates tbl m t | none => []
-  let adm := match toks with | some t => Spec.admissible tbl m t | none => []
-  if impl.startsWith "h=" then
-    -- dispatched: must be to an admissible route with exactly its bound segments
-    let ok := adm.any fun r =>
-      let b := Spec.binds r.pats (toks.getD [])
-      if Spec.distinctNames r.pats then impl == s!"h={r.h} vars={fmtVars b}"
-      else -- repeated name inside one pattern: every delivered pair must be one of the bound ones
-        impl.startsWith s!"h={r.h} vars=" &&
-          ((String.ofList (impl.toList.drop (s!"h={r.h} vars=".length))).splitOn ",").all fun kv =>
-            b.any fun (k, v) => kv == k ++ "=" ++ v
-    if ok then
-      if hyp && adm.length > 1 then some "hypothesis holds but the preferred match is not unique" else none
-    else if cs.isEmpty then some s!"dispatched [{impl}] although no route of method {m} matches"
-    else some s!"dispatched [{impl}] but the preferred match is [{",".intercalate (adm.map fun r => s!"h={r.h} vars={fmtVars (Spec.binds r.pats (toks.getD []))}")}]"
-  else
-    match Spec.expect tbl m toks with
-    | .handler r => some s!"not dispatched [{impl}] although route h={r.h} matches"
-    | .notAllowed a =>
-      let want := "405 allow=" ++ ",".intercalate (sortStr a)
-      if impl == want then none else some s!"expected [{want}] got [{impl}]"
-    | .notFound => if impl == "404" then none else some s!"expected [404] got [{impl}]"
+  fmtVerdict c m (toks.getD []) impl (Spec.monitorObs tbl hyp c m toks (parseObs impl))
 
 structure St where
-  router : Router := {}
+  pr : PatRouter := {}
   tbl : Spec.Table := []
   tree : Node := newNode none
   ttbl : Spec.Table := []
+  -- rest.Server sections
+  opts : List RunOpt := []
+  built : Bool := false
+  served : Bool := false         -- a request was served already (late registrations)
+  groups : List Group := []
 
 def patKind (pats : List String) : String :=
   String.ofList (pats.map fun k => if isVar k then 'v' else if k = "" then 'r' else 'l')
 
+/-- all outcomes of `ServeHTTP` over all iteration orders. -/
+def serveAllX (pr : PatRouter) (method path : String) : List String :=
+  let own : List (H × Params) :=
+    match pr.core.trees.lookup method with
+    | some root => if rooted path then nextAll (cleanToks path) root else []
+    | none => []
+  if own.isEmpty then [fmtResponse (pr.serveHTTP method path)]
+  else dedup (own.map fun (h, ps) => fmtHit h ps)
+
+def hasUpper (s : String) : Bool := s.toList.any Char.isUpper
+
+/-- one `req` line (router and server sections). -/
+def runReq (r : Report) (st : St) (sidx : Nat) (l : Line) (m p : String) : Report := Id.run do
+  let mut r := r
+  let (implClean, outs) := match l.obs with
+    | c :: rest => ((String.ofList (c.toList.drop 6)), splitBar rest)
+    | [] => ("?", [])
+  if rooted p then
+    if cleanPath p ≠ implClean then r := r.mismatch sidx l.idx s!"clean={cleanPath p}" s!"clean={implClean}"
+    if cleanPath p ≠ p then r := r.addCover "req-needs-clean"
+    if cleanToks p = [""] then r := r.addCover "req-root"
+    if p.toList.getLast? == some '/' ∧ p.length > 1 then r := r.addCover "req-trailing-slash"
+    if hasUpper p then r := r.addCover "req-upper-case"
+    if p.toList.any (fun c => c.toNat > 127) then r := r.addCover "req-non-ascii-segment"
+  else r := r.addCover "req-not-rooted"
+  if !(validMethod m) then r := r.addCover "req-unsupported-method"
+  let hyp := Spec.oneVarPerPosition st.tbl
+  let all := serveAllX st.pr m p
+  let resp := st.pr.serveHTTP m p
+  let det := fmtResponse resp
+  -- correspondence
+  if outs.isEmpty then r := r.mismatch sidx l.idx det "no-observation"
+  if all.length ≤ 1 then
+    if outs ≠ [det] then r := r.mismatch sidx l.idx det (" | ".intercalate outs)
+  else
+    r := r.addCover "req-order-dependent"
+    if outs.length > 1 then r := r.addCover "req-order-dependent-observed"
+    if !(outs.all all.contains) then
+      r := r.mismatch sidx l.idx (" | ".intercalate all) (" | ".intercalate outs)
+  if hyp && all.length > 1 then r := r.mismatch sidx l.idx "deterministic-under-hypothesis" (" | ".intercalate all)
+  -- coverage of the model's branches
+  match resp with
+  | .route h ps =>
+    let toks := cleanToks p
+    let route := (st.tbl.find? fun x => x.h == h).map (·.pats)
+    let kind := patKind (route.getD [])
+    let cs := Spec.candidates st.tbl m toks
+    r := r.addCover (if ps.isEmpty then "hit-literal-only" else if kind.contains 'l' then "hit-mixed" else "hit-vars-only")
+    if cs.length > 1 then r := r.addCover "hit-several-candidates"
+    -- backtracking: where the chosen route has a variable, a literal child for the request's token
+    -- existed (it is searched first and must have failed)
+    let cp := route.getD []
+    let backtracked := (List.range cp.length).any fun i =>
+      isVar (cp.getD i "") && st.tbl.any fun x =>
+        x.method == m && x.pats.take i == cp.take i && x.pats[i]? == toks[i]? && !isVar (x.pats.getD i "")
+    if backtracked then r := r.addCover "hit-after-backtrack"
+    if !(Spec.distinctNames cp) then r := r.addCover "hit-repeated-name-in-pattern"
+    if ps.any fun kv => kv.2 = "" then r := r.addCover "hit-empty-segment-bound"
+  | .defaultNotAllowed a => r := r.addCover (if a.length > 1 then "405-several" else "405-one")
+  | .customNotAllowed _ => r := r.addCover "405-custom-handler"
+  | .defaultNotFound => r := r.addCover "404"
+  | .customNotFound (.plain _) => r := r.addCover "404-custom-handler"
+  | .customNotFound (.engine (some _)) => r := r.addCover "404-engine-custom-handler"
+  | .customNotFound (.engine none) => r := r.addCover "404-engine-default"
+  -- monitor on the implementation's own outcomes
+  if hyp && outs.length > 1 then
+    r := r.violation sidx l.idx s!"request {m} {p}: dispatch differs between runs [{" | ".intercalate outs}] on a table with one variable name per position"
+  for o in outs do
+    match monitorReq st.tbl hyp (customOf st.pr) m p o with
+    | some msg => r := r.violation sidx l.idx s!"request {m} {p}: {msg}"
+    | none => pure ()
+  return r
+
+def parseReg (s : String) : Option Reg :=
+  match s.splitOn "," with
+  | [m, p, h] => (parseItem h).map fun item => (m, p, item)
+  | _ => none
+
+def fmtBind : Option HandleErr → String
+  | none => "ok"
+  | some e => fmtReg (.error e)
+
 def runSection (r : Report) (s : Section) : Report := Id.run do
   let mut r := r
   let mut st : St := {}
+  if kvStr s.cfg "kind" = "server" then
+    st := { st with pr := (newServer []).router }
+    r := r.addCover (if kvStr s.cfg "mw" = "1" then "server-native-middlewares-on" else "server-no-middlewares")
   for l in s.lines do
     r := { r with ops := r.ops + 1 }
     match l.op with
     | "route" :: args =>
       match arg "m=" args, arg "p=" args, (arg "h=" args).bind parseItem with
       | some m, some p, some item =>
-        let res := handle st.router m p item
+        let res := st.pr.handle m p item
         let (sv, tbl') := Spec.register st.tbl m p item
         let (implClean, implRes) := match l.obs with
           | [c, v] => ((String.ofList (c.toList.drop 6)), v)
           | _ => ("?", joinSp l.obs)
-        r := r.addCover ("route-" ++ fmtReg res)
+        let fres := fmtReg (res.map (·.core))
+        r := r.addCover ("route-" ++ fres)
         if rooted p then
           if cleanPath p ≠ implClean then r := r.mismatch s.idx l.idx s!"clean={cleanPath p}" s!"clean={implClean}"
           if cleanPath p ≠ p then r := r.addCover "route-needs-clean"
-        if fmtReg res ≠ implRes then r := r.mismatch s.idx l.idx (fmtReg res) implRes
+          if hasUpper p then r := r.addCover "route-upper-case"
+        if fres ≠ implRes then r := r.mismatch s.idx l.idx fres implRes
         if fmtSpecReg sv ≠ implRes then
           r := r.violation s.idx l.idx s!"registration of {m} {p}: property demands [{fmtSpecReg sv}] implementation did [{implRes}]"
         match res with
-        | .ok router' => st := { st with router := router' }
+        | .ok pr' => st := { st with pr := pr' }
         | .error _ => pure ()
+        if st.served then r := r.addCover "route-after-requests"
         st := { st with tbl := tbl' }
         if !(Spec.oneVarPerPosition st.tbl) then r := r.addCover "table-outside-hypothesis"
       | _, _, _ => r := r.mismatch s.idx l.idx "bad-op" (joinSp l.op)
+    | ["setnf", a] =>
+      -- patRouter.SetNotFoundHandler(h) (nil resets to http.NotFound)
+      match (arg "h=" [a]).bind parseItem with
+      | some item =>
+        st := { st with pr := { st.pr with notFound := item.map .plain } }
+        r := r.addCover (if item.isSome then "setnf-custom" else "setnf-nil")
+        if joinSp l.obs ≠ "ok" then r := r.mismatch s.idx l.idx "ok" (joinSp l.obs)
+      | none => r := r.mismatch s.idx l.idx "bad-op" (joinSp l.op)
+    | ["setna", a] =>
+      match (arg "h=" [a]).bind parseItem with
+      | some item =>
+        st := { st with pr := { st.pr with notAllowed := item } }
+        r := r.addCover (if item.isSome then "setna-custom" else "setna-nil")
+        if joinSp l.obs ≠ "ok" then r := r.mismatch s.idx l.idx "ok" (joinSp l.obs)
+      | none => r := r.mismatch s.idx l.idx "bad-op" (joinSp l.op)
+    | ["opt", a] =>
+      -- rest.WithNotFoundHandler / rest.WithNotAllowedHandler, collected for NewServer
+      let o : Option RunOpt :=
+        match (arg "nf=" [a]).bind parseItem, (arg "na=" [a]).bind parseItem with
+        | some h, _ => some (.notFound h)
+        | none, some h => some (.notAllowed h)
+        | none, none => none
+      match o with
+      | some o =>
+        if st.built then
+          if joinSp l.obs ≠ "late" then r := r.mismatch s.idx l.idx "late" (joinSp l.obs)
+        else
+          st := { st with opts := st.opts ++ [o], pr := { (newServer (st.opts ++ [o])).router with core := st.pr.core } }
+          r := r.addCover (match o with
+            | .notFound none => "opt-notfound-nil" | .notFound _ => "opt-notfound-custom"
+            | .notAllowed none => "opt-notallowed-nil" | .notAllowed _ => "opt-notallowed-custom")
+          if joinSp l.obs ≠ "ok" then r := r.mismatch s.idx l.idx "ok" (joinSp l.obs)
+      | none => r := r.mismatch s.idx l.idx "bad-op" (joinSp l.op)
+    | "group" :: args =>
+      -- Server.AddRoutes(routes [, WithPrefix(pfx)])
+      let pfx := arg "pfx=" args
+      let regs := (args.filter (·.startsWith "r=")).map fun a => parseReg (String.ofList (a.toList.drop 2))
+      if regs.any Option.isNone ∨ regs.isEmpty then r := r.mismatch s.idx l.idx "bad-op" (joinSp l.op)
+      else
+        let g : Group := { pfx := pfx, routes := regs.filterMap id }
+        st := { st with built := true, groups := st.groups ++ [g] }
+        r := r.addCover (match pfx with
+          | none => "group-no-prefix"
+          | some x => if x = "" then "group-prefix-empty" else if !(rooted x) then "group-prefix-not-rooted"
+                      else if cleanPath x ≠ x then "group-prefix-needs-clean"
+                      else if (cleanToks x).any isVar then "group-prefix-with-variable" else "group-prefix")
+        -- the paths Routes() reports: path.Join(group, path) = "" or path.Clean(joinRaw); without WithPrefix: as written
+        let implPaths := (String.ofList ((joinSp l.obs).toList.drop 6)).splitOn ","
+        let want := g.regs.map (·.2.1)
+        if implPaths.length ≠ want.length ∨ !((joinSp l.obs).startsWith "paths=") then
+          r := r.mismatch s.idx l.idx s!"paths={",".intercalate want}" (joinSp l.obs)
+        else
+          for (w, (i, orig)) in want.zip (implPaths.zip (g.routes.map (·.2.1))) do
+            match pfx with
+            | none => if w ≠ i then r := r.mismatch s.idx l.idx s!"path={w}" s!"path={i}"
+            | some x =>
+              if !(rooted orig) then r := r.addCover (if orig = "" then "group-route-path-empty" else "group-route-path-relative")
+              if (toksOf ("/" ++ orig)).contains ".." then r := r.addCover "group-route-dotdot"
+              if rooted w then
+                if cleanPath w ≠ i then r := r.mismatch s.idx l.idx s!"path={cleanPath w}" s!"path={i}"
+                if rooted x ∧ (cleanToks w).take (cleanToks x).length ≠ cleanToks x ∧ cleanToks x ≠ [""] then
+                  r := r.addCover "group-route-escapes-prefix"
+              else if rooted i then r := r.mismatch s.idx l.idx s!"path-not-rooted={w}" s!"path={i}"
+    | ["bind"] =>
+      -- engine.bindRoutes(router)
+      let srv : Server := { router := st.pr, groups := st.groups }
+      let (srv', err) := srv.bindRoutes
+      let (tbl', sv) := Spec.bindTable st.tbl srv.regs
+      st := { st with built := true, pr := srv'.router, tbl := tbl' }
+      r := r.addCover ("bind-" ++ fmtBind err)
+      if fmtBind err ≠ joinSp l.obs then r := r.mismatch s.idx l.idx (fmtBind err) (joinSp l.obs)
+      if fmtSpecReg sv ≠ joinSp l.obs then
+        r := r.violation s.idx l.idx s!"engine.bindRoutes: property demands [{fmtSpecReg sv}] implementation did [{joinSp l.obs}]"
+      if !(Spec.oneVarPerPosition st.tbl) then r := r.addCover "table-outside-hypothesis"
     | "req" :: args =>
       match arg "m=" args, arg "p=" args with
       | some m, some p =>
-        let (implClean, outs) := match l.obs with
-          | c :: rest => ((String.ofList (c.toList.drop 6)), splitBar rest)
-          | [] => ("?", [])
-        if rooted p then
-          if cleanPath p ≠ implClean then r := r.mismatch s.idx l.idx s!"clean={cleanPath p}" s!"clean={implClean}"
-          if cleanPath p ≠ p then r := r.addCover "req-needs-clean"
-          if cleanToks p = [""] then r := r.addCover "req-root"
-        else r := r.addCover "req-not-rooted"
-        let hyp := Spec.oneVarPerPosition st.tbl
-        let all := serveAll st.router m p
-        let det := fmtOutcome (serve st.router m p)
-        -- correspondence
-        if outs.isEmpty then r := r.mismatch s.idx l.idx det "no-observation"
-        if all.length ≤ 1 then
-          if outs ≠ [det] then r := r.mismatch s.idx l.idx det (" | ".intercalate outs)
-        else
-          r := r.addCover "req-order-dependent"
-          if outs.length > 1 then r := r.addCover "req-order-dependent-observed"
-          if !(outs.all all.contains) then
-            r := r.mismatch s.idx l.idx (" | ".intercalate all) (" | ".intercalate outs)
-        if hyp && all.length > 1 then r := r.mismatch s.idx l.idx "deterministic-under-hypothesis" (" | ".intercalate all)
-        -- coverage of the model's branches
-        match serve st.router m p with
-        | .handler h ps =>
-          let toks := cleanToks p
-          let route := (st.tbl.find? fun x => x.h == h).map (·.pats)
-          let kind := patKind (route.getD [])
-          let cs := Spec.candidates st.tbl m toks
-          r := r.addCover (if ps.isEmpty then "hit-literal-only" else if kind.contains 'l' then "hit-mixed" else "hit-vars-only")
-          if cs.length > 1 then r := r.addCover "hit-several-candidates"
-          -- backtracking: where the chosen route has a variable, a literal child for the request's token
-          -- existed (it is searched first and must have failed)
-          let cp := route.getD []
-          let backtracked := (List.range cp.length).any fun i =>
-            isVar (cp.getD i "") && st.tbl.any fun x =>
-              x.method == m && x.pats.take i == cp.take i && x.pats[i]? == toks[i]? && !isVar (x.pats.getD i "")
-          if backtracked then r := r.addCover "hit-after-backtrack"
-          if !(Spec.distinctNames cp) then r := r.addCover "hit-repeated-name-in-pattern"
-        | .notAllowed a => r := r.addCover (if a.length > 1 then "405-several" else "405-one")
-        | .notFound => r := r.addCover "404"
-        -- monitor on the implementation's own outcomes
-        if hyp && outs.length > 1 then
-          r := r.violation s.idx l.idx s!"request {m} {p}: dispatch differs between runs [{" | ".intercalate outs}] on a table with one variable name per position"
-        for o in outs do
-          match monitorReq st.tbl hyp m p o with
-          | some msg => r := r.violation s.idx l.idx s!"request {m} {p}: {msg}"
-          | none => pure ()
+        if kvStr s.cfg "kind" = "server" then st := { st with built := true }
+        r := runReq r st s.idx l m p
+        st := { st with served := true }
       | _, _ => r := r.mismatch s.idx l.idx "bad-op" (joinSp l.op)
     | "tadd" :: args =>
       match arg "p=" args, (arg "h=" args).bind parseItem with
       | some p, some item =>
         let res := treeAdd st.tree p item
         r := r.addCover ("tadd-" ++ fmtAdd res)
+        if rooted p then
+          let tk := toksOf p
+          if tk.getLast? == some "" ∧ tk.length > 1 ∧ !(tk.dropLast.contains "") then r := r.addCover "tadd-trailing-slash"
+          if tk.head? == some "" ∧ tk.length > 1 then r := r.addCover "tadd-leading-double-slash"
+          if tk = [""] then r := r.addCover "tadd-root"
+        else if p = "" then r := r.addCover "tadd-empty-string"
         if fmtAdd res ≠ joinSp l.obs then r := r.mismatch s.idx l.idx (fmtAdd res) (joinSp l.obs)
+        -- monitor: the registration rule for raw strings, on the plain list of stored keys (no tree)
+        let sv := Spec.rawAddVerdict (st.ttbl.map (·.pats)) p item
+        if sv ≠ joinSp l.obs then
+          r := r.violation s.idx l.idx s!"Tree.Add {p}: the rule for raw routes demands [{sv}] implementation did [{joinSp l.obs}]"
         match res with
         | .ok t => st := { st with tree := t }
         | .error _ => pure ()
+        match sv, item with
+        | "ok", some h => st := { st with ttbl := st.ttbl ++ [{ method := "", pats := Spec.rawKey p, h := h }] }
+        | _, _ => pure ()
       | _, _ => r := r.mismatch s.idx l.idx "bad-op" (joinSp l.op)
     | "tsearch" :: args =>
       match arg "p=" args with
@@ -219,12 +407,36 @@ def runSection (r : Report) (s : Section) : Report := Id.run do
         let all := if rooted p then dedup ((nextAll (toksOf p) st.tree).map fun (h, ps) => fmtHit h ps) else []
         let det := match treeSearch st.tree p with | some (h, ps) => fmtHit h ps | none => "none"
         r := r.addCover (if det = "none" then "tsearch-none" else "tsearch-hit")
+        let tk := toksOf p
+        if rooted p then
+          if tk.getLast? == some "" ∧ tk.length > 1 then
+            r := r.addCover (if det = "none" then "tsearch-trailing-slash-none" else "tsearch-trailing-slash-hit")
+          if tk.dropLast.contains "" then
+            r := r.addCover (if det = "none" then "tsearch-empty-segment-none" else "tsearch-empty-segment-hit")
+        else r := r.addCover "tsearch-not-rooted"
         if all.length ≤ 1 then
           if outs ≠ [det] then r := r.mismatch s.idx l.idx det (" | ".intercalate outs)
         else
           r := r.addCover "tsearch-order-dependent"
           if !(outs.all all.contains) then
             r := r.mismatch s.idx l.idx (" | ".intercalate all) (" | ".intercalate outs)
+        -- monitor: found iff a stored key matches the raw elements (tree_search_raw); a hit names a stored
+        -- matching key's item with its bound segments
+        let cands := if rooted p then st.ttbl.filter (fun x => Spec.matchesRawB x.pats tk) else []
+        for o in outs do
+          if o = "none" then
+            match cands with
+            | c :: _ => r := r.violation s.idx l.idx s!"Tree.Search {p}: not found although the stored route h={c.h} matches"
+            | [] => pure ()
+          else
+            match parseObs o with
+            | .hit h vars =>
+              let ok := cands.any fun x =>
+                x.h == h && cands.all (fun y => Spec.prefers x.pats y.pats) && (if Spec.distinctNames x.pats then Spec.sameSet vars (Spec.binds x.pats tk)
+                             else vars.all (Spec.binds x.pats tk).contains)
+              if !ok then
+                r := r.violation s.idx l.idx s!"Tree.Search {p}: found [{o}] but the stored routes matching are [{",".intercalate (cands.map (fmtRoute tk))}]"
+            | _ => r := r.violation s.idx l.idx s!"Tree.Search {p}: unexpected result [{o}]"
       | none => r := r.mismatch s.idx l.idx "bad-op" (joinSp l.op)
     | _ => r := r.mismatch s.idx l.idx "bad-op" (joinSp l.op)
   return r
